@@ -149,6 +149,7 @@ class Sim:
         self.preempt = preempt
         self.stall_p = stall_p          # probability that a worker step is followed by a stall
         self.stall_max = 12.0
+        self.stall_boost = None         # (job tag suffix, probability)
         self.line_p = line_p            # line-granularity pre-emption probability (0 = off)
         self.loop_seam_p = loop_seam_p  # probability to run a worker step at a loop-thread seam
         self.workers = []
@@ -232,7 +233,10 @@ class Sim:
         w = getattr(self.current, 'w', None)
         if w is not None:
             if self.preempt:
-                if self.stall_p and tag not in ('fs.read', 'db.get') and self.ch.chance(self.stall_p):
+                p = self.stall_p
+                if self.stall_boost and w.tag.endswith(self.stall_boost[0]):
+                    p = max(p, self.stall_boost[1])      # buggify: this kind of job is slow in this run
+                if p and tag not in ('fs.read', 'db.get') and self.ch.chance(p):
                     d = self.ch.delay(0.001, self.stall_max)
                     w.blocked_until = self.now + d
                     self.stats['stall'] += 1
